@@ -10,6 +10,7 @@ import os
 import random
 import subprocess
 import sys
+import threading
 import time
 import traceback
 
@@ -94,7 +95,18 @@ def _worker_run(task):
     return out.to_dict()
 
 
+_ENV_LOCK = threading.Lock()
+
+
 def _make_pool(prop, tier, mode, nproc, maxtasks=None):
+    # os.environ is process-global: confirmations run in threads, so the set-env / spawn / restore
+    # section must not interleave (a worker spawned with another thread's environment would start
+    # in the wrong numba mode).
+    with _ENV_LOCK:
+        return _make_pool_locked(prop, tier, mode, nproc, maxtasks)
+
+
+def _make_pool_locked(prop, tier, mode, nproc, maxtasks=None):
     ctx = mp.get_context("spawn")
     saved = {k: os.environ.get(k) for k in
              ("NUMBA_DISABLE_JIT", "PYTHONHASHSEED", "PYTHONPATH", "OMP_NUM_THREADS",
@@ -218,7 +230,7 @@ def explore(prop, tier, seed, nproc, only=None, budget=None, log=sys.stderr):
 
 
 def _replay_once(prop, tier, mode, space, rank):
-    pool = _make_pool(prop, tier, mode, 1, maxtasks=1)
+    pool = _make_pool(prop, tier, mode, 1)
     try:
         return pool.apply(_worker_run, ((space, rank, rank + 1),))
     finally:
@@ -236,9 +248,12 @@ def confirm(prop, tier, spaces, viol):
     seen = []
     for _ in range(2):
         sh = _replay_once(prop, tier, mode, viol["space"], viol["rank"])
+        if sh.get("harness_error"):
+            seen.append("harness error during replay: " + sh["harness_error"][-400:])
+            continue
         ids = [_viol_identity(v) for v in sh["violations"]]
         seen.append(_viol_identity(viol) in ids)
-    return all(seen), seen
+    return all(x is True for x in seen), seen
 
 
 def write_replay(prop, tier, viol, tree):
